@@ -18,7 +18,7 @@ var c10ErrExceptions = []ErrException{
 }
 
 func init() {
-	register("C10", []string{".", "./wal", "./record", "./objstorage/...", "./vfs", "./vfs/atomicfs", "./internal/manifest", "./sstable", "./sstable/blob", "./sstable/block", "./valsep", "./internal/compact"}, runC10)
+	register("C10", []string{".", "./wal", "./record", "./objstorage/...", "./vfs", "./vfs/atomicfs", "./internal/manifest", "./sstable", "./sstable/blob", "./sstable/block", "./valsep", "./internal/compact", "./vfs/atomicfs"}, runC10)
 	propExplain["C10"] = "Decides the ordering clause of C10: every durability point (directory sync after WAL creation, object-provider sync before a table is named by the MANIFEST, file sync before close) dominates — through its nil-error edge — the acknowledgement that depends on it, in every path of the listed functions. Does not decide the crash model or file-system semantics."
 }
 
@@ -81,6 +81,10 @@ func runC10(c *Ctx) {
 	runC10Open(c)
 	runC10V1(c)
 	c12SyncWatermark(c, "C10.V2")
+	// shared: sync-before-ack (C20), MANIFEST protocol (C22), marker (C24)
+	runC20Core(c)
+	runC22(c)
+	runC24(c)
 }
 
 // runC10O3: tables are synced before the MANIFEST names them (shared with C12, C36).
